@@ -280,10 +280,17 @@ End WithOracle.
 
 (* oracle used by the correspondence run: ratio results are masked (VNone on both sides); only
    the refusals of _conforming_weighted_average that do not depend on numerics are modelled *)
+Definition arr_lens (vs : list value) : list nat :=
+  flat_map (fun v => match v with VArr _ xs => [length xs] | _ => [] end) vs.
+Definition same_lens (ls : list nat) : bool :=
+  match ls with [] => true | n :: r => forallb (Nat.eqb n) r end.
 Definition wavg_mask (tr : transform) (vals weights : list value) : result value :=
   let none v := match v with VNone => true | _ => false end in
-  match tr with
+  let isarr v := match v with VArr _ _ => true | _ => false end in
+  if negb (same_lens (arr_lens (vals ++ weights))) then Err ValueError
+  else match tr with
   | TExpLog => if existsb none vals then Err TypeError
+               else if existsb isarr vals && negb (forallb isarr vals) then Err ValueError
                else if existsb none weights then Err TypeError else Ok VNone
   | TId => if existsb (fun p => negb (none (fst p)) && none (snd p)) (combine vals weights)
            then Err TypeError else Ok VNone
